@@ -55,6 +55,19 @@ def run17(prop, tier, seed, work):
         U.with_defaults({k2: v2 for k2, v2 in uf.items() if not v2.get("invalid")})
         names = [s for s in sorted(uf.keys()) if not uf[s].get("invalid") and s != "NCv"]
         scen = []
+        # the very first calls of the process: in every other environment a control is called before the container types
+        # are built; values as the decoder hands them out (non-canonical bool bytes); outputs compared across environments
+        first_call = [None, "NoJIT", "SetMaxInlineDepth", "PretouchOpts", "NoJIT", "GetStats"][ei % 6]
+        bm0 = [13, 0, 1, 11, 2, 0, 0, 0, 1, 0, 0, 0, 1, 107, 2,  13, 0, 2, 2, 8, 0, 0, 0, 1, 2, 0, 0, 0, 7,  15, 0, 3, 2, 0, 0, 0, 2, 2, 1,
+               2, 0, 4, 3,  13, 0, 5, 8, 2, 0, 0, 0, 1, 0, 0, 0, 9, 255,  14, 0, 6, 2, 0, 0, 0, 1, 128,  0]
+        uf["BmFirst"] = U.struct([U.field(1, "default", U.M(U.T("string"), U.T("bool"))), U.field(2, "default", U.M(U.T("bool"), U.T("i32"))),
+                                  U.field(3, "default", U.L(U.T("bool"))), U.field(4, "default", U.T("bool")), U.field(5, "default", U.M(U.T("i32"), U.T("bool"))),
+                                  U.field(6, "default", U.SET(U.T("bool")))])
+        U.with_defaults({"BmFirst": uf["BmFirst"]})
+        fsteps = ([{"op": "legacy", "call": first_call, "ty": "", "arg": 1}] if first_call else []) + \
+            [{"op": "decode", "ty": "BmFirst", "in": bm0, "dest": "fresh"}]
+        fsteps.append({"op": "encode", "ty": "BmFirst", "obj": len(fsteps) - 1, "raw": True, "buf": {"mode": "rel", "n": 0, "extra": 0}})
+        scen.append({"sid": "C17-e%d-first" % ei, "prop": prop, "vals": [], "steps": fsteps, "tags": ["first-calls"], "dkey": "C17-e%d-first" % ei})
         for c in range(ncyc):
             calls = [["Pretouch", "BA"], ["PretouchOpts", "BA"], ["PretouchValue", "BB"], ["Pretouch", "Bd"], ["NoJIT", "BA"], ["PretouchValue", "BA"]][c]
             steps = [{"op": "legacy", "call": calls[0], "ty": "%s%d" % (calls[1], c), "arg": 1},
@@ -72,6 +85,46 @@ def run17(prop, tier, seed, work):
                      {"op": "overwrite", "obj": 1, "byte": 255}, {"op": "recheck", "obj": 1, "after": "overwrite"}]
             sid = "C17-e%d-nocopy-%s" % (ei, call)
             scen.append({"sid": sid, "prop": "C14", "vals": [], "steps": steps, "tags": ["nocopy"], "dkey": sid})
+        # the same first use, decode and re-encode before and after each control, on two types with one schema: the outputs
+        # agree byte for byte (values as a caller gets them from the decoder, here with non-canonical bool bytes)
+        bmsg = [13, 0, 1, 11, 2, 0, 0, 0, 1, 0, 0, 0, 1, 107, 2,  13, 0, 2, 2, 8, 0, 0, 0, 1, 2, 0, 0, 0, 7,  15, 0, 3, 2, 0, 0, 0, 2, 2, 1,
+                2, 0, 4, 3,  13, 0, 5, 8, 2, 0, 0, 0, 1, 0, 0, 0, 9, 255,  14, 0, 6, 2, 0, 0, 0, 1, 128,  0]
+        for ci, call in enumerate(LEGACY):
+            na, nb = "Bm%d_%da" % (ei, ci), "Bm%d_%db" % (ei, ci)
+            for nme in (na, nb):
+                uf[nme] = U.struct([U.field(1, "default", U.M(U.T("string"), U.T("bool"))), U.field(2, "default", U.M(U.T("bool"), U.T("i32"))),
+                                    U.field(3, "default", U.L(U.T("bool"))), U.field(4, "default", U.T("bool")), U.field(5, "default", U.M(U.T("i32"), U.T("bool"))),
+                                    U.field(6, "default", U.SET(U.T("bool")))])
+                U.with_defaults({nme: uf[nme]})
+            steps = [{"op": "decode", "ty": na, "in": bmsg, "dest": "fresh"},
+                     {"op": "encode", "ty": na, "obj": 0, "raw": True, "buf": {"mode": "rel", "n": 0, "extra": 0}},
+                     {"op": "legacy", "call": call, "ty": nb if ci % 2 else "", "arg": 1},
+                     {"op": "decode", "ty": nb, "in": bmsg, "dest": "fresh"},
+                     {"op": "encode", "ty": nb, "obj": 3, "raw": True, "buf": {"mode": "rel", "n": 0, "extra": 0}},
+                     {"op": "cmpout", "a": 1, "b": 4},
+                     {"op": "legacy", "call": "NoJIT", "ty": "", "arg": 0}]
+            sid = "C17-e%d-beforeafter-%s" % (ei, call)
+            scen.append({"sid": sid, "prop": prop, "vals": [], "steps": steps, "tags": ["before-after", call], "dkey": sid})
+        # Pretouch given a pointer to an object the caller keeps using: by-value calls with other values of the type must
+        # not reach it
+        for s in names[:12]:
+            vs = [v for (_, v) in U.struct_variants(s, uf, [0, 1, 2], [0, 1, 5])][:3]
+            if len(vs) < 2:
+                continue
+            steps = [{"op": "legacy", "call": "PretouchObj", "ty": s, "v": 0},
+                     {"op": "size", "ty": s, "v": 1, "byval": True},
+                     {"op": "encode", "ty": s, "v": 1, "byval": True, "buf": {"mode": "rel", "n": 0, "extra": 0}},
+                     {"op": "recheck", "obj": 0, "after": "byval-calls"},
+                     {"op": "encode", "ty": s, "v": len(vs) - 1, "byval": True, "buf": {"mode": "rel", "n": 0, "extra": 0}},
+                     {"op": "size", "ty": s, "v": 0},
+                     {"op": "recheck", "obj": 0, "after": "byval-calls"}]
+            sid = "C17-e%d-pretouchobj-%s" % (ei, s)
+            scen.append({"sid": sid, "prop": prop, "vals": vs, "steps": steps, "tags": ["pretouch-object"], "dkey": sid})
+        # nesting-depth behaviour is part of "no effect on behaviour": probed here, compared across environments below
+        for pat in ("struct", "list", "mapval"):
+            sid = "C17-e%d-deep-%s" % (ei, pat)
+            scen.append({"sid": sid, "prop": prop, "vals": [], "tags": ["deep", pat], "dkey": sid,
+                         "steps": [{"op": "deep", "ty": "Rec", "pattern": pat, "depths": [1, 10, 48, 100, 300, 511, 512, 600, 1023, 1024, 1500, 3000, 20000], "bisect": True}]})
         k = 0
         for s in names:
             vs = list(U.struct_variants(s, uf, [0, 1, 2], [0, 1, 5]))
@@ -110,8 +163,23 @@ def run17(prop, tier, seed, work):
                     steps = [st for st in steps if st.get("op") != "decode"]
                 sid = "C17-e%d-%s-%s-%d" % (ei, s, lbl, k)
                 scen.append({"sid": sid, "prop": prop, "vals": [v], "steps": steps, "tags": tags, "dkey": sid})
-        batches.append(Batch("env%d" % ei, uf, scen, env=env))
-    suite.run_batches(res, work, batches, want_props={"C17", "C01", "C02", "C04", "C16", "C03", "C13", "C14", "C06"})
+        batches.append(Batch("env%d" % ei, uf, scen, env=env, maxstack=64 << 20))
+    want = {"C17", "C01", "C02", "C04", "C16", "C03", "C13", "C14", "C06", "C15"}
+    suite.run_batches(res, work, batches, want_props=want)
+    # the same probes in every environment: identical outcomes (judged by the specification: Api!JEnvCmp)
+    envs = []
+    for ei, b in enumerate(batches):
+        sig = sorted("%s/%s/%s" % (r.get("pattern"), r.get("d"), r.get("obs", {}).get("out")) for r in (b.records or []) if r.get("ev") == "Deep")
+        envs.append({"env": "env%d" % ei, "sig": sig})
+    envs2 = []
+    for ei, b in enumerate(batches):
+        sig = ["%s" % r.get("obs", {}).get("bytes") for r in (b.records or []) if r.get("ev") == "EncodeRaw" and r.get("sid", "").endswith("-first")]
+        envs2.append({"env": "env%d" % ei, "sig": sig})
+    cmp_records = [{"ev": "Scenario", "scen": 0, "sid": "C17-envcmp-deep", "prop": prop, "vals": []},
+                   {"scen": 0, "sid": "C17-envcmp-deep", "step": 0, "ev": "EnvCmp", "kind": "deep", "obs": {"out": "ok", "envs": envs}},
+                   {"scen": 0, "sid": "C17-envcmp-deep", "step": 1, "ev": "EnvCmp", "kind": "first-bytes", "obs": {"out": "ok", "envs": envs2}}]
+    cmp_scen = [{"sid": "C17-envcmp-deep", "prop": prop, "vals": [], "steps": [{"op": "envcmp"}], "tags": ["cross-environment"], "dkey": "envcmp-deep"}]
+    suite.run_batches(res, work, [Batch("envcmp", {"Leaf": uf["Leaf"]}, cmp_scen, records=cmp_records)], want_props=want)
     res.extra["environments"] = ENVS
     return suite.finish(res, RULE17, ASSUME17)
 
@@ -187,5 +255,14 @@ def run18(prop, tier, seed, work):
                 sc.append({"sid": sid, "prop": prop, "vals": [v], "tags": [], "dkey": sid,
                            "steps": [{"op": "allocs", "ty": s, "v": 0, "calls": 100}]})
             batches.append(Batch("random%d" % i, ur, sc, env={"GOMAXPROCS": "1"}))
+    # warm types that share a slot of the descriptor table (the driver picks the pairs among many tiny types), used alternately
+    cd = {"Col%d" % k: U.struct([U.field(1, "default", U.T("i32"))]) for k in range(1500 if quick else 5000)}
+    U.with_defaults(cd)
+    csc = []
+    for k in range(8 if quick else 100):
+        sid = "C18-collide-%d" % k
+        csc.append({"sid": sid, "prop": prop, "vals": [{"f": {"1": [0, 0, 1, 2]}, "unk": []}], "tags": ["slot-collision"], "dkey": sid,
+                    "steps": [{"op": "allocs", "collide": True, "calls": 100}]})
+    batches.append(Batch("collide", cd, csc, env={"GOMAXPROCS": "1"}))
     suite.run_batches(res, work, batches)
     return suite.finish(res, RULE18, ASSUME18)
